@@ -318,7 +318,15 @@ pub fn header_parser(i: &[u8]) -> IResult<&[u8], (BlockType, Headers, bool)> {
     let (i, (typ, headers)) = armor_header(i)?;
 
     // "A blank (zero length or containing only whitespace) line"
-    let (i, _) = pair(space0, line_ending).parse(i)?;
+    let (i, _) = pair(space0, line_ending).parse(i).map_err(|err| {
+        if i.contains(&b'\n') {
+            err
+        } else {
+            // The line is not complete yet, it may still turn out to be an armor header
+            // (or the blank line), so more data is needed to decide.
+            nom::Err::Incomplete(nom::Needed::Unknown)
+        }
+    })?;
 
     Ok((i, (typ, headers, has_leading_data)))
 }
